@@ -1355,10 +1355,17 @@ def enc8(cfg, classes=None):
         by_ref = ret.replace('const ', '') == f.cls + ' &'
         rets = [e for b, i, e in f.elements() if e.get('k') == 'return' and e.get('e') is not None]
         star_this = bool(rets)
+        from .. import wsum as _ws
+        ci_ = _ws.const_inits(f)
+        reft_ = {v_['did'] for b_, i_, e_ in f.elements() if e_.get('k') == 'decl' for v_ in e_['vars'] if (v_.get('t') or '').rstrip().endswith('&')}
         for e in rets:
             x = f.strip_casts(e['e'])
             while isinstance(x, dict) and x.get('k') == 'call' and x.get('ck') == 'ctor' and (x.get('copy') or x.get('move')) and x.get('args'):
                 x = f.strip_casts(x['args'][0])
+            d_ = 0
+            while isinstance(x, dict) and x.get('k') == 'ref' and x.get('vk') == 'local' and x.get('did') in ci_ and x.get('did') in reft_ and d_ < 3:
+                x = f.strip_casts(ci_[x['did']])        # a local REFERENCE bound to *this
+                d_ += 1
             ok_ = isinstance(x, dict) and ((x.get('k') == 'unop' and x.get('op') == '*' and isinstance(f.strip_casts(x['sub']), dict) and f.strip_casts(x['sub']).get('k') == 'this') or (x.get('k') == 'call' and x.get('cls') == f.cls and x.get('obj') is not None and isinstance(f.strip_casts(x['obj']), dict) and f.strip_casts(x['obj']).get('k') == 'this' and (x.get('t') or '').replace('const ', '') in (f.cls, f.cls + ' &')))
             if not ok_:
                 star_this = False
